@@ -37,7 +37,7 @@ def _run(prog, chk):
     chk.rule("C06.verify", "decision table of pdu_verifyHmac; wiring of KSI_*Pdu_verify / verifyHmac", floor=16)
     chk.rule("C06.range", "authenticated byte range of v1 and v2 PDUs", floor=3)
     chk.rule("C06.version", "parse / MAC computation are pinned to the configured PDU version", floor=20)
-    chk.rule("C06.request", "request PDUs carry a MAC of a trusted, configured algorithm", floor=6)
+    chk.rule("C06.request", "request PDUs carry a MAC of a trusted, configured algorithm", floor=8)
     chk.rule("C06.template", "v2 PDU templates: header first, MAC last", floor=4)
 
     # ------------------------------------------------------------------ synchronous getters
@@ -358,6 +358,17 @@ def _run(prog, chk):
             g_cmp("!=", lambda f, x, ak=ak: lvalue_key(x, f) == ak, lambda f, x: is_int(x) and strip(x)["v"] in (-1, INVALID), "algorithm configured"),
             g_ok("KSI_%sPdu_updateHmac" % K, arg_prov(r"KSI_%sPdu_new\(.*\)@1" % K, r"options\[const:(KSI_OPT_%s_HMAC_ALGORITHM|%d)\]" % (OPT, oi), "^param:%s$" % fr.params[2]["n"])),
         ])
+        # the placeholder the MAC is computed around: the v2 MAC covers the serialized PDU minus the digest at its end, so the all-zero
+        # imprint put there first must be of the very algorithm the MAC is then computed with (another algorithm shifts the lengths,
+        # the imprint's algorithm octet and the cut point)
+        import re as _re
+        zc = list(fr.calls("KSI_DataHash_createZero"))
+        want = r"options\[const:(KSI_OPT_%s_HMAC_ALGORITHM|%d)\]" % (OPT, oi)
+        upd = [provenance(fr, b, i, n["a"][1]) for b, i, n in fr.calls("KSI_%sPdu_updateHmac" % K)]
+        okz = bool(zc) and bool(upd) and all(_re.search(want, provenance(fr, b, i, n["a"][1])) and provenance(fr, b, i, n["a"][1]) == upd[0] for b, i, n in zc)
+        chk.ob("C06.request", "%s:placeholder" % fr.name, okz,
+               "the zero imprint the MAC is computed around is created with the algorithm given to KSI_%sPdu_updateHmac (%s): %s"
+               % (K, upd[:1], [provenance(fr, b, i, n["a"][1]) for b, i, n in zc]), loc=fr.loc(), fn=fr)
         fu = prog.fn("KSI_%sPdu_updateHmac" % K, "types.c")
         st = [(b, i, n) for b, i, n in fu.nodes() if n.get("k") == "asg" and (lvalue_key(n["l"], fu) or "").endswith("->hmac")]
         oku = bool(st) and all(provenance(fu, b, i, n["r"]).startswith("KSI_%sPdu_calculateHmac(param:%s,param:%s,param:%s,_)@3" %
